@@ -6,6 +6,7 @@ mod c11;
 mod c15;
 mod c16;
 mod c17;
+mod c18;
 mod c19;
 mod coqfmt;
 mod model;
@@ -37,7 +38,7 @@ pub fn write_shards(
         let path = format!("{}/{}.v", out, name);
         let mut f = std::io::BufWriter::new(std::fs::File::create(&path).unwrap());
         writeln!(f, "From Coq Require Import List QArith ZArith NArith Bool.").unwrap();
-        writeln!(f, "From QmcV Require Import Model.Prog Model.Sse Model.Ham Model.Diagonal Model.Nav Model.Cluster Model.Tempering Model.Classical Check.Common Check.Table Check.{}.", module).unwrap();
+        writeln!(f, "From QmcV Require Import Model.Prog Model.Sse Model.Ham Model.Diagonal Model.Nav Model.Cluster Model.Tempering Model.Classical Model.Pool Check.Common Check.Table Check.{}.", module).unwrap();
         writeln!(f, "Import ListNotations.").unwrap();
         writeln!(f, "Definition base : N := {}%N.", k * per_shard.max(1)).unwrap();
         writeln!(f, "Definition cases : list {}.case := [", module).unwrap();
@@ -99,6 +100,7 @@ fn main() {
         "c11" => c11::run(&args),
         "c15" => c15::run(&args),
         "c19" => c19::run(&args),
+        "c18" => c18::run(&args),
         other => {
             eprintln!("unknown command {}", other);
             std::process::exit(2);
